@@ -227,9 +227,21 @@ Definition coalesce_spec (K : list bits) : list bits :=
     (filter (fun p => fullb f K p && match p with [] => true | _ => negb (fullb f K (removelast p)) end)
             (flat_map prefixes_of K)).
 
-Definition dest_set_ok (k : bits) (r : nat) (dests chosen : list bits) : bool :=
-  Nat.eqb (length chosen) (Nat.min r (length dests)) && nodupb chosen && subsetb chosen dests &&
-  forallb (fun c => forallb (fun d => memb d chosen || closer k c d) dests) chosen.
+(* [closer k a b] without building the XOR lists: at the first position where a and b differ,
+   a agrees with k (equal lengths) -- the lexicographic order of (a xor k) and (b xor k) *)
+Fixpoint closerb (k a b : bits) : bool :=
+  match k, a, b with
+  | z :: k', x :: a', y :: b' => if Bool.eqb x y then closerb k' a' b' else Bool.eqb x z
+  | _, _, _ => false
+  end.
+
+(* [chosen] (entries of dests, identified by their id) are min(r,|dests|) distinct destinations,
+   each closer to k than every destination not chosen *)
+Definition has_id (i : N) (l : list ent) : bool := existsb (fun e => N.eqb (snd e) i) l.
+Definition dest_set_ok (k : bits) (r : nat) (dests chosen : list ent) : bool :=
+  Nat.eqb (length chosen) (Nat.min r (length dests)) && nodupN (map snd chosen) &&
+  forallb (fun d => if has_id (snd d) chosen then true
+                    else forallb (fun c => closerb k (fst c) (fst d)) chosen) dests.
 
 Definition same_length (n : nat) (l : list bits) : bool := forallb (fun k => Nat.eqb (length k) n) l.
 
@@ -328,10 +340,10 @@ Definition spec_ok (q : query) (s0 s1 : T) (o : obs) : option bool :=
                  && forallb (fun x => nodupN (snd x)) l
                  (* every item: its destinations are the min(r,|dests|) nearest *)
                  && forallb (fun it =>
-                      let chosen := flat_map (fun e => if existsb (fun x => N.eqb (fst x) (snd e)
-                                                                      && existsb (N.eqb (snd it)) (snd x)) l
-                                                       then [fst e] else []) (entries s1) in
-                      dest_set_ok (fst it) r K1 chosen) E0
+                      let chosen := filter (fun e => existsb (fun x => if N.eqb (fst x) (snd e)
+                                                                       then existsb (N.eqb (snd it)) (snd x)
+                                                                       else false) l) (entries s1) in
+                      dest_set_ok (fst it) r (entries s1) chosen) E0
                  (* nothing allocated that is not an item *)
                  && forallb (fun x => forallb (fun i => existsb (fun e => N.eqb (snd e) i) E0) (snd x)) l
              | _ => false end
